@@ -28,9 +28,17 @@ func (r *c14Result) MarshalJSON() ([]byte, error) {
 
 type c14Writer struct {
 	writes [][]byte
+	calls  int
+	failAt int // this Write call (1-based) fails once, transiently, writing nothing; 0: never
 }
 
+var errC14Write = errors.New("write: resource temporarily unavailable")
+
 func (w *c14Writer) Write(p []byte) (int, error) {
+	w.calls++
+	if w.calls == w.failAt {
+		return 0, errC14Write
+	}
 	w.writes = append(w.writes, append([]byte{}, p...))
 	return len(p), nil
 }
@@ -129,5 +137,80 @@ func VerifH_C14_unique() {
 		}
 	}
 	verifAssert(string(got) == string(want), "de-duplication did not forward exactly the first sighting of every distinct host, in order")
+	verifCover("done")
+}
+
+// VerifH_C14_writeFault: one transient failure of the output (the k-th write call, k chosen by the
+// solver): at most the record being written is lost; every later result is still printed, whole
+// and in order.
+func VerifH_C14_writeFault() {
+	K := verifParam("K", 3)
+	w := &c14Writer{}
+	f := ndU8("failAtWrite")
+	verifAssume(int(f) <= K)
+	w.failAt = int(verifConcretize(uint64(f)))
+	lg := &logger{zapl: zap.NewNop(), label: "t", w: w, rw: &JSONResultWriter{}, flushInterval: time.Second}
+	in := make(chan scan.Result, K)
+	for i := 0; i < K; i++ {
+		in <- &c14Result{id: string(rune('a' + i)), data: []byte{'{', byte('0' + i), '}'}}
+	}
+	close(in)
+	lg.LogResults(context.Background(), in)
+	var out []byte
+	for _, p := range w.writes {
+		out = append(out, p...)
+	}
+	// every record but at most one (the one that met the fault) is present, in order
+	next, missing := 0, 0
+	for i := 0; i < K; i++ {
+		line := []byte{'{', byte('0' + i), '}', '\n'}
+		if next+4 <= len(out) && string(out[next:next+4]) == string(line) {
+			next += 4
+		} else {
+			missing++
+		}
+	}
+	verifAssert(next == len(out), "output contains something that is not a complete record line")
+	if w.failAt == 0 {
+		verifAssert(missing == 0, "a result was not printed although the output never failed")
+	} else {
+		verifCover("fault")
+		verifAssert(missing <= 1, "one transient write failure silenced more than the record being written")
+	}
+	verifCover("done")
+}
+
+// VerifH_C12_loggerCancel: the real logger reading the real result channel of a scan that is
+// cancelled with Q results still queued: LogResults returns, nothing crashes, and whatever was
+// printed are complete records of real results.
+func VerifH_C12_loggerCancel() {
+	Q := int(verifConcretize(uint64(ndU8("queued") % 3)))
+	parent, cancel := context.WithCancel(context.Background())
+	rc := scan.NewResultChan(parent, 10)
+	for i := 0; i < Q; i++ {
+		rc.Put(&c14Result{id: string(rune('a' + i)), data: []byte{'{', byte('0' + i), '}'}})
+	}
+	w := &c14Writer{}
+	lg := &logger{zapl: zap.NewNop(), label: "t", w: w, rw: &JSONResultWriter{}, flushInterval: time.Second}
+	ctx, cancel2 := context.WithCancel(parent)
+	defer cancel2()
+	done := make(chan struct{})
+	go func() {
+		defer close(done)
+		lg.LogResults(ctx, rc.Chan())
+	}()
+	if ndBool("letItDrainFirst") {
+		time.Sleep(time.Millisecond)
+	}
+	cancel() // Ctrl-C: the result channel is built on the same context and closes with it
+	select {
+	case <-done:
+	case <-time.After(time.Second):
+		verifAssert(false, "the logger did not return after cancellation")
+	}
+	for _, p := range w.writes {
+		verifAssert(len(p) == 4 && p[0] == '{' && p[2] == '}' && p[3] == '\n', "a printed record is not a complete line of a real result")
+	}
+	verifAssert(len(w.writes) <= Q, "more records printed than results produced")
 	verifCover("done")
 }
